@@ -116,7 +116,11 @@ def _gen_dir(rng, files, sp, rel, name, cfg, depth, style):
         elif noise == "txt":
             files[f"{d}README.txt"] = "hello\n"
         elif noise == "dotted":
-            files[f"{d}{rng.choice(SUB_NAMES)}.x.py"] = _body("py", f"sp{sp}/{d}dotted")
+            if rng.random() < 0.5:
+                files[f"{d}{rng.choice(SUB_NAMES)}.x.py"] = _body("py", f"sp{sp}/{d}dotted")
+            else:
+                # a backup of a stub file: no module of any name for CPython, no stubs of `name` for a type checker
+                files[f"{d}{rng.choice(SUB_NAMES)}.old.pyi"] = "STUB = 'stale backup'\n\n\ndef gone() -> int: ...\n"
         elif noise == "bak":
             files[f"{d}{rng.choice(SUB_NAMES)}.py.bak"] = "x = 1\n"
         else:
@@ -203,6 +207,9 @@ def generate(rng, opts):
                 if r < 0.15:
                     # a plain *file* named like the package (no suffix): not a namespace portion, not a module
                     files[top] = "not a directory\n"
+                elif r > 0.9:
+                    # a *directory* named like a module file of that name
+                    files[f"{top}.py/README.txt"] = "a directory\n"
                 elif r < 0.3 and top not in pkgutil_names:
                     # a directory that only holds stubs for the package (a `typings/` directory put on the search
                     # path): for CPython a namespace portion at most, so a regular package elsewhere is the package
@@ -252,13 +259,18 @@ def generate(rng, opts):
         # in sorted order and the directories in search-path order, and appends what they name in that order
         n_listed = n_sp - 2
         nested = rng.random() < 0.3
+        # (names as distribution tools write them: `dist.pth` next to `dist-nspkg.pth` - CPython sorts the full file names)
+        paired = rng.sample(["dist.pth", "dist-nspkg.pth"], 2) if rng.random() < 0.35 and not nested else None
+        pair_holder = rng.randrange(n_listed)
         for u in (n_sp - 2, n_sp - 1):
             holder = rng.randrange(n_listed)
             if nested and u == n_sp - 1:
                 # the .pth file sits in a directory that is itself only known through a .pth file: CPython's site
                 # module reads .pth files in site directories only, never in the directories they add
                 holder = n_sp - 2
-            fname = rng.choice(["a.pth", "extra.pth", "zz.pth", "B.pth", "_x.pth"])
+            fname = rng.choice(["a.pth", "extra.pth", "zz.pth", "B.pth", "_x.pth", "a-b.pth"])
+            if paired:
+                holder, fname = pair_holder, paired[u - (n_sp - 2)]
             prev = dirs[holder].get(fname, rng.choice(["", "# comment\n", "\n"]))
             # (hand-edited files carry trailing blanks, Windows line ends: `site` strips the right-hand side of a line)
             # (a line may be relative: `site` joins it with the directory of the .pth file - easy-install.pth has `./x.egg`)
@@ -288,6 +300,11 @@ def generate(rng, opts):
                 body = f"MAPPING: dict[str, str] = {{'{t}': '<SP{last}>/{t}'}}\nNAMESPACES = {{}}\n"
             dirs[0][f"{mod}.py"] = body
             dirs[0]["__editable__.proj.pth"] = f"import {mod}\n"
+            if rng.random() < 0.4:
+                # a plain directory line above the import line, naming one more directory that provides the package:
+                # `site` handles every line, the directory comes first on the path
+                dirs.append({f"{t}/__init__.py": _body("py", f"sp{len(dirs)}/{t}/__init__.py"), f"{t}/only_here.py": _body("py", f"sp{len(dirs)}/{t}/only_here.py")})
+                dirs[0]["__editable__.proj.pth"] = f"<SP{len(dirs) - 1}>\nimport {mod}\n"
         cfg["pth_flavor"] = flavor
     modes = [{"mode": "sorted"}, {"mode": "reversed"}] + [{"mode": "hash", "key": rng.randrange(1 << 30)} for _ in range(4)]
     schedules = [modes[0]] + rng.sample(modes[1:], rng.choice([2, 3, 4]))
@@ -557,13 +574,17 @@ def conflict_tags(dirs, dotted):
     expanded = []
     for files in dirs:
         view = dict(files)
-        for rel, content in files.items():
-            if isinstance(content, dict) and "symlink" in content:
-                base = rel.rsplit("/", 1)[0] + "/" if "/" in rel else ""
-                target = base + content["symlink"]
-                for r2, c2 in files.items():
-                    if r2.startswith(target + "/"):
-                        view[rel + r2[len(target) :]] = c2
+        for _ in range(3):  # links below links (`lnk -> ns`, `ns/compat -> sub`): expand until nothing new shows up
+            before = len(view)
+            for rel, content in list(view.items()):
+                if isinstance(content, dict) and "symlink" in content:
+                    base = rel.rsplit("/", 1)[0] + "/" if "/" in rel else ""
+                    target = base + content["symlink"]
+                    for r2, c2 in list(view.items()):
+                        if r2.startswith(target + "/"):
+                            view.setdefault(rel + r2[len(target) :], c2)
+            if len(view) == before:
+                break
         expanded.append(view)
     dirs = expanded
     for i in range(1, len(parts) + 1):
